@@ -7,7 +7,7 @@ Open Scope Z_scope.
 Definition r_lt (a b : range) : bool := Nat.ltb (fst a) (fst b).
 Definition r_contains (a b : range) : bool := Nat.ltb (fst a) (fst b) && Nat.ltb (snd b) (snd a).
 Definition r_overlaps (a b : range) : bool :=
-  (Nat.leb (fst a) (fst b) && Nat.leb (fst b) (snd a)) || (Nat.leb (fst a) (snd b) && Nat.leb (snd b) (snd a)).
+  (Nat.leb (fst a) (fst b) && Nat.ltb (fst b) (snd a)) || (Nat.ltb (fst a) (snd b) && Nat.leb (snd b) (snd a)).
 
 Record scope0 := mkScope0 { s_header : header; s_block : range }.
 Definition hrange (h : header) : range := (h_start h, h_end h).
